@@ -8,10 +8,22 @@ package actionlint
 // T' is a loosening of T (a sub-term replaced by any, or a closed object
 // opened); every rule that accepts (T, U) must accept (T', U) and (T, U').
 
+// verifC06NarrowLeaves: the types at the deepest level are drawn from {any, number, string} only.
+var verifC06NarrowLeaves bool
+
 func verifGenType(tag string, depth int) ExprType {
 	n := 5
 	if depth > 0 {
 		n = 11
+	} else if verifC06NarrowLeaves && tag != "t" && tag != "u" {
+		switch verifChoose(tag, 3) {
+		case 0:
+			return AnyType{}
+		case 1:
+			return NumberType{}
+		default:
+			return StringType{}
+		}
 	}
 	switch verifChoose(tag, n) {
 	case 0:
@@ -108,6 +120,13 @@ func verifSemaErrs(src string, tx, ty ExprType) int {
 // HarnessC06Rules: monotonicity of every typing rule in x (and, by symmetry of
 // the expression list, in y).
 var verifC06DeepExprs = []string{"x.a.a", "x.*", "x.*.a", "x.a.*", "x.a.*.a", "x.*[0]", "x.a[y]", "x.a['a']", "x[0].a", "x['a'].a", "contains(x.*.a, y)", "format('{0}', x.a.a)", "x.a == y", "fromJSON(x.a).a", "join(x.a, y)", "x.a.a == x.a.b"}
+
+// HarnessC06RulesNarrow: the deep templates on depth-2 types whose innermost
+// types are any, number or string.
+func HarnessC06RulesNarrow(depth int) {
+	verifC06NarrowLeaves = true
+	HarnessC06Rules(depth, true)
+}
 
 func HarnessC06Rules(depth int, deep bool) {
 	T := verifGenType("t", depth)
